@@ -1,6 +1,32 @@
 package main
 
 func init() {
+	checks["TRANSTEST"] = func(r *Report, p *Program, tier string) {
+		all := aspectSet{"T1": true, "T2": true, "T3": true, "T4": true, "T5": true, "T6": true, "T7": true, "T8": true, "T9": true, "T10": true, "A2d": true}
+		RuleTransport(r, p, all)
+		RuleShare(r, p, all)
+	}
+	checks["CODECTEST"] = func(r *Report, p *Program, tier string) {
+		c := NewCodec(r, p, true)
+		if c == nil {
+			return
+		}
+		all := aspectSet{"L1": true, "L2": true, "L3": true, "L4": true, "L5": true, "L6": true, "L7": true}
+		RuleLayout(r, c, all)
+		RuleRegistry(r, c, []string{"requests", "responses"}, all)
+		RuleEventLayout(r, c)
+		RuleK1(r, c)
+		RuleK2(r, c)
+		RuleK3(r, c)
+		RuleK4(r, c)
+		RuleK5(r, c)
+		RuleK6(r, c)
+		RuleK7(r, c)
+		RuleK8(r, c)
+		RuleK9(r, c)
+		RuleK11(r, c)
+		RuleG1(r, p)
+	}
 	checks["APITEST"] = func(r *Report, p *Program, tier string) {
 		for _, id := range []string{"A0", "A1", "A2", "A3", "A4", "A5", "A6", "A7", "IM1"} {
 			r.Rule(id, "api rule "+id, 1)
